@@ -99,6 +99,11 @@ class C18(Prop):
 
     def content(self, rng, trusted=False):
         k = rng.random()
+        if trusted and k < 0.35:
+            # what a trusted input may do to the session that the inputs after it inherit - and blank inputs, which still
+            # count as inputs (each is a render call with its own options)
+            return rng.choice([".safeMode = '1'", ".safeMode = '3'\n<b>t</b>", ".htmlReplacement = 'TR'\n.safeMode = '2'", '', '  \n', '\n',
+                               "{tm} = '<i>tm</i>'", ".safeMode = '5'\n\npara"])
         if k < 0.5:
             return clean(gen.document(rng, 1, rng.randint(1, 2)))
         if k < 0.7:
@@ -111,6 +116,26 @@ class C18(Prop):
         while True:
             argv = []
             files = {}
+            if rng.random() < 0.1:
+                # a chain of trusted inputs (some blank, some changing the session's options) in front of untrusted ones, with and
+                # without an explicit safe mode: every input is one render call, trusted ones at mode 0, the others at the given mode
+                for i in range(rng.randint(1, 3)):
+                    if rng.random() < 0.5:
+                        name = 'pre%d.rmu' % i
+                        files[name] = self.content(rng, True)
+                        argv += ['--prepend-file', name]
+                    else:
+                        argv += [rng.choice(['--prepend', '-p']), self.content(rng, True).replace('\n', ' ') if rng.random() < 0.3 else self.content(rng, True)]
+                if rng.random() < 0.4:
+                    argv += ['--safe-mode', rng.choice(['0', '1', '2', '9'])]
+                names = rng.choice([['doc.rmu'], ['-'], [], ['doc.rmu', 'b.rmu']])
+                for n in names:
+                    if n != '-':
+                        files.setdefault(n, rng.choice(['<br> text <b>b</b>', '<div>html block</div>\n\npara {tm}', self.content(rng)]))
+                rimurc = rng.choice([None, None, ".safeMode = '1'", ''])
+                yield {'argv': ['--no-rimurc'] * (rimurc is None and rng.random() < 0.5) + argv + names, 'files': files,
+                       'stdin': rng.choice(['<br> stdin <i>i</i>', self.content(rng)]), 'rimurc': rimurc}
+                continue
             if rng.random() < 0.1:
                 # where the output goes: a layout with exactly one named file writes <name>.html unless an output is named
                 # (`-` is standard output); with two files, standard input or no layout it is standard output
